@@ -1139,10 +1139,11 @@ func (h *histRun) checkQuiescent(final bool) {
 				// re-sent with a stale snapshot whose reference the service's
 				// current state no longer has
 				v.Sig += ".afterUnsend"
-			} else if sr := rc.LostInStray[v.RID]; v.Prop == "C02" && sr != "" && h.hasNote("sub.unsend", c.CID, sr) {
-				// consequence of an ignored stray event (finding E) that carried this resource
+			} else if v.Prop == "C02" && h.lostToUnsend(c.CID, rc, v.RID) {
+				// consequence of an ignored stray event (finding E) that carried this
+				// resource (possibly through further stray events it caused)
 				v.Sig += ".afterUnsend"
-			} else if sr := rc.LostInStray[v.Holder]; v.Prop == "C02" && v.Holder != "" && sr != "" && h.hasNote("sub.unsend", c.CID, sr) {
+			} else if v.Prop == "C02" && v.Holder != "" && h.lostToUnsend(c.CID, rc, v.Holder) {
 				v.Sig += ".afterUnsend"
 			}
 			if v.Prop == "C02" && !strings.Contains(v.Sig, ".after") && (rc.LostAfterGet[v.RID] || (v.Holder != "" && rc.LostAfterGet[v.Holder])) {
@@ -1462,6 +1463,22 @@ func (h *histRun) copyStale(rc *RefClient, rid string) bool {
 		return false
 	}
 	return !JSONEqual(h.w.ClientState(name, rc.Ver), rc.State(rid))
+}
+
+// lostToUnsend follows the chain "rid was carried by an ignored stray event on
+// rid2, which was carried by ..." to a resource with the hook note sub.unsend.
+func (h *histRun) lostToUnsend(cid string, rc *RefClient, rid string) bool {
+	for hops := 0; hops < 6; hops++ {
+		sr := rc.LostInStray[rid]
+		if sr == "" || sr == rid {
+			return false
+		}
+		if h.hasNote("sub.unsend", cid, sr) {
+			return true
+		}
+		rid = sr
+	}
+	return false
 }
 
 func (h *histRun) worldHasRef(holder, rid string) bool {
